@@ -169,6 +169,8 @@ def check(ctx):
             for v in T[: min(nb, 60 if ctx.quick else 400)]:
                 a, pi = perm_asym(v, order)
                 worst = max(worst, a)
+            a, pi = perm_asym(np.tensordot(rng.normal(size=nb), T, axes=(0, 0)), order)      # every column takes part
+            worst = max(worst, a)
             ctx.case({"cell": sc["name"], "order": order, "N": N, "n_basis": int(nb)}, nontrivial=True)
             ctx.count("cell-basis")
             if worst > 1e-8:
